@@ -1,9 +1,11 @@
 import WcModel.Properties.C09
-#print axioms WcModel.C09.C09_escape
-#print axioms WcModel.C09.C09_escape_matches_itself
-#print axioms WcModel.C09.C09_not_magic
-#print axioms WcModel.C09.litEq_cs
 #print axioms WcModel.C09.escape_is_print
+#print axioms WcModel.C09.escape_ok
+#print axioms WcModel.C09.C09_escape
+#print axioms WcModel.C09.litEq_refl
+#print axioms WcModel.C09.C09_escape_matches_itself
+#print axioms WcModel.C09.litEq_cs
+#print axioms WcModel.C09.C09_not_magic
 #print axioms WcModel.C09.fnEntry_example
 #print axioms WcModel.C09.metachar_witness
 #print axioms WcModel.literal_language
